@@ -74,6 +74,14 @@ def _sl(a):
     return slice(*a)
 
 
+ODD_INDEX = {'none': None, 'text': '0', 'float': 1.0}
+
+
+def _ix(i):
+    """an insert position: an int, or the name of something that is no integer (list.insert refuses it with TypeError)"""
+    return ODD_INDEX[i] if isinstance(i, str) else i
+
+
 class Hist(object):
     """applies ops to (grid, list) and compares outcomes"""
 
@@ -124,7 +132,9 @@ class Hist(object):
             if kind == 'append':
                 real, model = both(lambda: g.append(row), lambda: (chk_dict(row), l.append(row))[1])
             elif kind == 'insert':
-                real, model = both(lambda: g.insert(op[1], row), lambda: (chk_dict(row), l.insert(op[1], row))[1])
+                real, model = both(lambda: g.insert(_ix(op[1]), row), lambda: (chk_dict(row), l.insert(_ix(op[1]), row))[1])
+                if isinstance(op[1], str):
+                    self.flags.add('refused')
             else:
                 def ms():
                     chk_dict(row)
@@ -359,10 +369,12 @@ def alphabet(mode):
         ops += [['append', 10], ['insert', 0, 10], ['setitem', 0, 10], ['append', 'int'], ['insert', 0, 'none'], ['setitem', 0, 'pairs'], ['extend', [0, 'int']],
                 ['setitem', 7, 0], ['del', 7], ['del', -5], ['pop', -6], ['delslice', [None, None, 2]], ['delslice', [None, None, -1]],
                 ['delslice', [2, None, -1]], ['extend', [1, 6], 'iter'], ['iadd', [2], 'iter'],
-                ['slice', [None, None]], ['slice', [0, 1000]], ['remove', 11], ['remove', 12], ['append', 11], ['append', 12]]
+                ['slice', [None, None]], ['slice', [0, 1000]], ['remove', 11], ['remove', 12], ['append', 11], ['append', 12],
+                ['insert', 'none', 1], ['insert', 'float', 3]]
     else:
         ops += [['append', 5], ['append', 7], ['filter', 'v'], ['setitem', 0, 4], ['extend', []], ['remove', 3],
-                ['slice', [None, None]], ['append', 8], ['setitem', 0, 9], ['rmw', 0, ['str', 'zz']], ['rmw', -1, ['str', 'b']]]
+                ['slice', [None, None]], ['append', 8], ['setitem', 0, 9], ['rmw', 0, ['str', 'zz']], ['rmw', -1, ['str', 'b']],
+                ['insert', 'none', 1]]
     return ops
 
 
@@ -394,6 +406,7 @@ def history_strategy(mode):
     if mode in ('list', 'both'):
         ops += [bad.map(lambda b: ['append', b]), st.tuples(idx, bad).map(lambda p: ['insert', p[0], p[1]]),
                 st.tuples(idx, bad).map(lambda p: ['setitem', p[0], p[1]]),
+                st.tuples(st.sampled_from(sorted(ODD_INDEX)), t).map(lambda p: ['insert', p[0], p[1]]),
                 st.tuples(st.lists(t, max_size=2), bad).map(lambda p: ['extend', p[0] + [p[1]]])]
     if mode in ('id', 'both'):
         ops += [st.just(['filter', 'v'])]
